@@ -340,6 +340,19 @@ def renderChars (ev : String → Outcome) (tpl : List Char) : Except Err Rendere
 
 def render (ev : String → Outcome) (tpl : String) : Except Err Rendered := renderChars ev tpl.toList
 
+/-! ### collection limits -/
+
+/-- the text `eval_watch` hands back for a field, given whether the snapshot's variable budget was already spent
+    when the field was evaluated (sources extracted from `ActionContext.eval_watch`) -/
+def watchText (budgetSpent : Bool) (o : Outcome) : String :=
+  match (if budgetSpent then watchTextOnLimit else watchTextOnValue) with
+  | .logStr => o.text
+  | .errorText => watchLimitText
+
+/-- rendering on a collecting tracepoint on which the fields in `spent` find the variable budget used up -/
+def renderUnderBudget (spent : String → Bool) (ev : String → Outcome) (tpl : String) : Except Err Rendered :=
+  render (fun e => { ev e with text := watchText (spent e) (ev e) }) tpl
+
 /-! ### what leaves the agent -/
 
 /-- value handed to one parameter of the tracepoint logger -/
